@@ -308,6 +308,11 @@ def configs(tier, seed):
                 continue
             cfgs.append({"mode": "bfs", "spec": spec, "conv": conv, "d": 2, "depth": depth,
                          "seed": seed})
+    if tier == "thorough":
+        # one level deeper for the classes with the richest derivative chains
+        for spec, conv in (("euclidean", "with_value"), ("constrained_gram", "mixed_top")):
+            cfgs.append({"mode": "bfs", "spec": spec, "conv": conv, "d": 2, "depth": 4,
+                         "seed": seed})
     for spec in ("euclidean", "euclidean_identity", "gaussian"):
         for conv in cw.CONVS:
             for rec in izoo.tractable_recipes("quick"):
@@ -344,6 +349,7 @@ def run(tier, seed, acc):
                 "trajectory lengths / step counts that passed",
         "exhaustive": True,
         "bounds": {"depth": 2 if tier == "quick" else 3,
+                   "depth_for_two_classes": None if tier == "quick" else 4,
                    "clause_checks": c.get("clause_checks", 0),
                    "transition_executions": c.get("transition_executions", 0)},
     }
